@@ -39,20 +39,30 @@ BOUNDS = {'quick': {'depth': 2}, 'thorough': {'depth': 3}}
 INITS = [{'X': ['a', 'b'], 'Y': []}, {'X': ['a'], 'Y': []}]
 
 
+def gen_kind_of(kind):
+    return 'nested' if kind == 'nested' else 'full'
+
+
 def world(init, history, issuer, kind, ts_of, op_first, horizon):
-    script = {}
+    script, script2 = {}, {}
     for i, op in enumerate(history):
         n = i if issuer == 'process' else i + 1
-        script[n] = st.op_update(op, 'full', 1)
-    spec = st.initial_world(kind, ts_of, issuer, script, init=init)
+        script[n] = st.op_update(op, gen_kind_of(kind), 1)
+        u2 = st.op2_update(op, gen_kind_of(kind), 1)
+        if u2 is not None:
+            script2[n] = u2
+    spec = st.initial_world(kind, ts_of, issuer, script, init=init,
+                            op2_script=script2)
     spec['processes']['ticker'] = {
         'cls': 'P', 'pid': 'ticker', 'ts': 1, 'log_states': False,
         'schema': {'tk': {'n': dict(st.VAR)}}, 'update': {'tk': {'n': 1}}}
     spec['topology']['ticker'] = {'tk': ('ticker_store',)}
     if op_first and issuer == 'process':
         spec['processes'] = dict(
-            [('op', spec['processes']['op'])] +
-            [(k, v) for k, v in spec['processes'].items() if k != 'op'])
+            [('op', spec['processes']['op']),
+             ('op2', spec['processes']['op2'])] +
+            [(k, v) for k, v in spec['processes'].items()
+             if k not in ('op', 'op2')])
     spec['entry'] = 'composite'
     spec['script'] = [('update', horizon)]
     return spec
@@ -116,8 +126,8 @@ def expected_schedule(init, history, issuer, kind, ts_of, horizon):
     Returns ({(path, time)} process invocations,
              {time: {(path, step name): expected run count | (lo, hi)}})
     """
-    models = st.replay_model(init, kind, history, gen_kind='full',
-                             ts_of=ts_of)
+    models = st.replay_model(init, kind, history,
+                             gen_kind=gen_kind_of(kind), ts_of=ts_of)
     # cells with their life span
     cells = {}      # id(cell) -> dict(path history, born, ts, inner)
     for c in st.CONTAINERS:
@@ -158,7 +168,7 @@ def expected_schedule(init, history, issuer, kind, ts_of, horizon):
             names_after = after.t[c]
             names_before = before.t[c]
             for k, comp in names_after.items():
-                if comp['inner'] != 'full':
+                if comp['inner'] not in ('full', 'nested'):
                     continue
                 cid = id(comp['cell'])
                 existed = any(id(x['cell']) == cid and kk == k
@@ -182,7 +192,7 @@ def expected_schedule(init, history, issuer, kind, ts_of, horizon):
                 # compartments removed in this phase: the deriver and the
                 # first layer still ran, the later layer must not
                 for k, comp in names_before.items():
-                    if comp['inner'] != 'full':
+                    if comp['inner'] not in ('full', 'nested'):
                         continue
                     cid = id(comp['cell'])
                     still = any(id(x['cell']) == cid and kk == k
@@ -208,6 +218,9 @@ def _moved_in(before, after, cid):
 
 
 def run_history(job, acc):
+    if job[0] == 'bare':
+        run_bare_move(job, acc)
+        return
     init_i, history, issuer, kind, ts_pair, op_first = job
     init = INITS[init_i]
     ts_of = {'a': ts_pair[0], 'b': ts_pair[1]}
@@ -301,6 +314,38 @@ def run_history(job, acc):
                   f'history {history} ({issuer}): phase at t={t}: step '
                   f'{key} ran {got} times, expected {want}')
                 return
+    # ---- steps ran at their place in the flow: data-flow evidence in
+    # every row (d0, s1 copy v; s2 copies what s1 wrote in this phase)
+    for r in recs:
+        t = r['data']['time']
+        m = models[min(int(t), len(models) - 1)] if t == int(t) else None
+        if m is None:
+            continue
+        for c in st.CONTAINERS:
+            for k, comp in m.t[c].items():
+                if comp['inner'] not in ('full', 'nested'):
+                    continue
+                if issuer == 'step' and comp['born'] == t and t > 0:
+                    continue       # created in this phase: runs next time
+                node = r['snapshot'].get(c, {}).get(k)
+                if not isinstance(node, dict):
+                    continue
+                outs = (node.get('o_d0'), node.get('o_s1'),
+                        node.get('o_s2'))
+                touched_now = issuer == 'step' and 0 < int(t) <= len(
+                    history) and (c, k) in models[int(t) - 1].footprint(
+                        history[int(t) - 1])
+                if touched_now:
+                    # the operator step touched it in this very phase,
+                    # after / next to its own steps
+                    continue
+                if any(o != node.get('v') for o in outs):
+                    V('C10.steps', f'step-outputs-stale:{opname}:{issuer}',
+                      f'history {history} ({issuer}): at t={t} '
+                      f'{c}/{k} has v={node.get("v")} but step outputs '
+                      f'(d0, s1, s2) = {outs}: a step did not run at its '
+                      f'place in the flow')
+                    return
     # ---- (ii) the published composite describes the hierarchy
     pub = {'processes': eng.processes, 'steps': eng.steps,
            'flow': eng.flow, 'topology': eng.topology}
@@ -401,17 +446,97 @@ def _row(rec):
     return (t, fw.jdump(norm(d)))
 
 
+def bare_move_world(tick, ts, issuer):
+    """A _move whose source is a single process node (not a compartment):
+    the process must keep running - at its new place - afterwards."""
+    counter = {'cls': 'P', 'pid': 'counter', 'ts': ts,
+               'schema': {'box': {'count': dict(st.VAR)}},
+               'update': {'box': {'count': 1}}}
+    n = tick if issuer == 'process' else tick + 1
+    mover = {'cls': 'P' if issuer == 'process' else 'S', 'pid': 'mover',
+             'ts': 1, 'log_states': False,
+             'schema': {'a': {}, 'b': {}},
+             'update': {'$n': {n: {'a': {'_move': [{
+                 'source': 'counter', 'target': 'b'}]}}}, '$else': {}}}
+    keep = {'cls': 'P', 'pid': 'keep', 'ts': 1, 'log_states': False,
+            'schema': {'bb': {'count': dict(st.VAR)}}, 'update': {}}
+    spec = {'processes': {'a': {'counter': counter}, 'keep': keep,
+                          'ticker': {'cls': 'P', 'pid': 'ticker', 'ts': 1,
+                                     'log_states': False,
+                                     'schema': {'tk': {'n': dict(st.VAR)}},
+                                     'update': {'tk': {'n': 1}}}},
+            'steps': {}, 'flow': {},
+            'topology': {'a': {'counter': {'box': ('box',)}},
+                         'ticker': {'tk': ('tks',)},
+                         'keep': {'bb': ('b', 'box')},
+                         'mover': {'a': ('a',), 'b': ('b',)}},
+            'state': {'a': {'box': {'count': 100}},
+                      'b': {'box': {'count': 500}}},
+            'script': [('update', 6)], 'entry': 'composite'}
+    if issuer == 'process':
+        spec['processes']['mover'] = mover
+    else:
+        spec['steps']['mover'] = mover
+        spec['flow']['mover'] = []
+    return spec
+
+
+def run_bare_move(job, acc):
+    _, tick, ts, issuer = job
+    spec = bare_move_world(tick, ts, issuer)
+    case = {'special': 'bare-move', 'job': job}
+    V = lambda rule, fp, msg: acc.violate(  # noqa
+        fw.violation(rule, fp, msg, case))
+    ex = worlds.execute(spec)
+    acc.case(key=job, outcome='bare-move')
+    busy = (tick + 1) % ts != 0 or issuer == 'process'
+    if ex.error:
+        fp = 'still-pending-after-move-of-busy-process' if busy and \
+            'still pending' in str(ex.error[2]) else \
+            f'bare-move:{type(ex.error[2]).__name__}'
+        V('C10.crash', fp, f'{job}: unexpected {ex.error[2]!r}'[:400])
+        return
+    eng = ex.engine
+    paths = {p for p in eng.process_paths}
+    if ('b', 'counter') not in paths or ('a', 'counter') in paths:
+        V('C10.schedule', 'moved-process-not-registered-at-new-path',
+          f'{job}: the engine runs {sorted(paths)}; the hierarchy holds '
+          f'the counter at b/counter')
+        return
+    invs = [ev[4] for ev in ex.trace if ev[0] == 'invoke' and
+            ev[2] == 'counter']
+    t_move = tick + 1
+    after = [t for t in invs if t >= t_move]
+    if not busy and after != [t for t in range(t_move, 6)
+                              if (t - t_move) % ts == 0]:
+        V('C10.schedule', 'moved-process-not-invoked-on-schedule',
+          f'{job}: counter invoked at {invs} (moved at {t_move})')
+        return
+    state = eng.state.get_value()
+    total = state['a']['box']['count'] - 100 + \
+        state['b']['box']['count'] - 500
+    if not busy and total != len(invs):
+        V('C10.schedule', 'moved-process-updates-lost',
+          f'{job}: {len(invs)} invocations but the two boxes grew by '
+          f'{total}')
+
+
 def jobs(ctx):
     out = []
+    for tick in (0, 1, 2):
+        for ts in (1, 2, 3):
+            for issuer in ('step', 'process'):
+                out.append(('bare', tick, ts, issuer))
     depth = BOUNDS[ctx.tier]['depth']
     for init_i, init in enumerate(INITS):
         for issuer in ('step', 'process'):
-            for kind in ('full', 'proc'):
+            for kind in ('full', 'proc', 'nested'):
                 d = depth if kind == 'full' or not ctx.quick else 1
                 hists, seen, trans = st.enumerate_histories(
                     init, kind, d, with_pairs=True,
                     pair_levels=2 if d <= 2 else 1,
-                    proc_issuer=False, gen_kind='full')
+                    proc_issuer=False, gen_kind=gen_kind_of(kind),
+                    with_regen=True)
                 ts_pairs = ((1, 1), (3, 1)) if ctx.quick else (
                     (1, 1), (3, 1), (1, 3), (2, 1))
                 for h in hists:
@@ -434,6 +559,9 @@ def replay(case):
     def tup(x):
         return tuple(tup(y) for y in x) if isinstance(x, (list, tuple)) \
             else x
-    run_history((case['init'], tup(case['history']), case['issuer'],
-                 case['kind'], tup(case['ts']), case['op_first']), acc)
+    if case.get('special') == 'bare-move':
+        run_bare_move(tup(case['job']), acc)
+    else:
+        run_history((case['init'], tup(case['history']), case['issuer'],
+                     case['kind'], tup(case['ts']), case['op_first']), acc)
     return [v for exs in acc.viol_examples.values() for v in exs]
